@@ -6,7 +6,7 @@ import gencommon as g
 from optcommon import skey
 import c09
 
-from predicate.generator.generate_false import generate_false
+from predicate import generate_false         # the PUBLIC entry point (what users import)
 from predicate import predicate as PP
 from predicate.standard_predicates import ge_p, is_int_p, is_str_p
 
@@ -63,7 +63,11 @@ def search(payload):
             break
     # short str / extreme bounds: the bound itself is a rare draw, so these streams are read far (cheap: no collections)
     from predicate.standard_predicates import gt_p
-    for p in (ge_p("a"), ge_p("b"), gt_p(""), gt_p("a"), ge_p("A"), ge_p("0")):
+    from predicate.standard_predicates import eq_true_p, eq_false_p, eq_p
+    plain = {id(eq_true_p): lambda v: v == True, id(eq_false_p): lambda v: v == False}      # noqa: E712  (the plain-Python meaning of the exported names)
+    far = [ge_p("a"), ge_p("b"), gt_p(""), gt_p("a"), ge_p("A"), ge_p("0"), eq_true_p, eq_false_p, eq_p(True), eq_p(1), eq_p(0)]
+    plain[id(far[8])], plain[id(far[9])], plain[id(far[10])] = (lambda v: v == True), (lambda v: v == 1), (lambda v: v == 0)    # noqa: E712
+    for p in far:
         for seed in range(2):
             random.seed(int(payload["seed"]) * 104729 + seed)
             if timeouts >= 3:
@@ -77,8 +81,14 @@ def search(payload):
             for i, v in enumerate(vals):
                 n += 1
                 k, r = call(p, v)
+                if id(p) in plain:          # judged by the plain meaning of the constructor call, not by the object's own __call__
+                    try:
+                        k, r = "ok", bool(plain[id(p)](v))
+                    except Exception:  # noqa: BLE001
+                        k, r = "ok", False
                 if k != "ok" or r:
-                    fails.append({"p": repr(p), "p_structure": skey(p), "position": i, "value": repr(v), "p(value)": (repr(r) if k == "ok" else f"raises {r}")})
+                    fails.append({"p": repr(p), "p_structure": skey(p), "position": i, "value": repr(v), "p(value)": (repr(r) if k == "ok" else f"raises {r}"),
+                                  "library_says": repr(call(p, v))})
                     break
     w14 = ge_p(3) & is_int_p
     random.seed(1)
